@@ -165,6 +165,8 @@ pub enum GDirective {
     NativeWitness { script: Vec<u8> },
     TreasuryDonation { coin: GExpr },
     VoteDelegation { drep: GExpr, stake: GExpr },
+    /// `cardano::publish`: an extra output (after the `output` blocks) carrying a reference script
+    Publish { to: GExpr, amount: GExpr, datum: Option<GExpr>, version: i64, script: Vec<u8>, field_order: Vec<u8> },
     /// withdrawal with any subset of its fields (C13)
     WithdrawalPartial { from: Option<GExpr>, amount: Option<GExpr>, redeemer: Option<GExpr> },
 }
@@ -631,6 +633,30 @@ impl<'p> Printer<'p> {
                 }
                 if let Some(e) = redeemer {
                     self.field(tx, "redeemer", e);
+                }
+                self.t("}");
+            }
+            GDirective::Publish { to, amount, datum, version, script, field_order } => {
+                self.t("publish");
+                self.t("{");
+                let mut order = field_order.clone();
+                for k in 0..5u8 {
+                    if !order.contains(&k) {
+                        order.push(k);
+                    }
+                }
+                for k in order {
+                    match k {
+                        0 => self.field(tx, "to", to),
+                        1 => self.field(tx, "amount", amount),
+                        2 => {
+                            if let Some(d) = datum {
+                                self.field(tx, "datum", d)
+                            }
+                        }
+                        3 => self.field(tx, "version", &GExpr::Int(*version)),
+                        _ => self.field(tx, "script", &GExpr::Hex(script.clone())),
+                    }
                 }
                 self.t("}");
             }
